@@ -212,7 +212,14 @@ def check(R, F):
             R.require(got == want, 'outcome-table', key, fn.where(row['target']),
                       'effects %s' % sorted(got),
                       'effects of the %s arm are %s, the RFC table prescribes %s (extra: %s, missing: %s)' % (vname, sorted(got), sorted(want), sorted(got - want), sorted(want - got)))
-    R.floor('outcome-table', 16)
+    # the section-writing helpers used in those arms leave AA / RCODE / TC alone: the header effects of an outcome are
+    # exactly the ones listed in the table above (a referral reached through a CNAME keeps the AA of the first owner)
+    for h in ('do_referral', 'add_negative_caching_soa', 'do_additional_section_processing', 'add_additional_addresses', 'follow_cname_1'):
+        hf = F.fn(Q + h)
+        fns_ = [hf] + F.closures_of(hf.gpath)
+        hdr = sorted({callee_name(t).split('::')[-1] for f_ in fns_ for b_, t in f_.calls() if callee_name(t) in (W + 'set_aa', W + 'set_rcode', W + 'set_tc', W + 'set_extended_rcode', W + 'clear_rrs')})
+        R.require(not hdr, 'outcome-table', Q + h + '|no-header-effects', hf.where(), '%s writes records only; AA/RCODE are decided by the outcome arms' % h, '%s also changes the header (%s): the flags decided by the outcome table are overwritten' % (h, hdr))
+    R.floor('outcome-table', 21)
     # do_cname sets AA (RFC 6604 §2.1) before following the chain
     dc = F.fn(Q + 'do_cname')
     b_aa = [b for b, t in calls_in(dc, W + 'set_aa') if const_name(t['args'][1]) == 'true']
